@@ -40,34 +40,45 @@ func TestVerifC17PkgSplit(t *testing.T) {
 		if err := json.Unmarshal(line, &c); err != nil {
 			t.Fatal(err)
 		}
-		in := vStr(c.Inp)
-		got := SplitPkgConfigFlags(in)
 		if c.Doc.Out {
-			// outside the documented grammar: no part list is prescribed, but nothing may be lost or invented
 			r.count("outside_domain")
-			if vEssential(got) != vStr(c.Ess) {
-				r.mismatch("altered-outside-domain", map[string]any{"input": in, "inp": c.Inp, "got": got, "essential": vStr(c.Ess)})
+		} else {
+			if !vEq(vStrs(c.Doc.Parts), vStrs(c.Px.Parts)) {
+				r.count("silent")
 			}
-			return
-		}
-		wantDoc, wantPx := vStrs(c.Doc.Parts), vStrs(c.Px.Parts)
-		okDoc := vEq(got, wantDoc)
-		okPx := !c.Px.Out && vEq(got, wantPx)
-		if !vEq(wantDoc, wantPx) {
-			r.count("silent")
-			if okDoc {
-				r.count("silent_as_documented")
-			} else if okPx {
-				r.count("silent_as_posix")
+			if len(c.Doc.Parts) > 0 {
+				r.count("nontrivial")
 			}
 		}
-		if len(wantDoc) > 0 {
-			r.count("nontrivial")
-		}
-		if !okDoc && !okPx {
-			r.mismatch("split-parts", map[string]any{"input": in, "inp": c.Inp, "got": got, "want_doc": wantDoc, "want_posix": wantPx,
-				"lenient": c.Lenient, "dashc": c.Dashc})
-		}
+		reported := false
+		vInstances(c.Inp, vMultiLetters, func() {
+			in := vStr(c.Inp)
+			got := SplitPkgConfigFlags(in)
+			r.count("real_calls")
+			if c.Doc.Out {
+				// outside the documented grammar: no part list is prescribed, but nothing may be lost or invented
+				if vEssential(got) != vStr(c.Ess) && !reported {
+					reported = true
+					r.mismatch("altered-outside-domain", map[string]any{"input": in, "inp": c.Inp, "got": got, "essential": vStr(c.Ess)})
+				}
+				return
+			}
+			wantDoc, wantPx := vStrs(c.Doc.Parts), vStrs(c.Px.Parts)
+			okDoc := vEq(got, wantDoc)
+			okPx := !c.Px.Out && vEq(got, wantPx)
+			if !vEq(wantDoc, wantPx) {
+				if okDoc {
+					r.count("silent_as_documented")
+				} else if okPx {
+					r.count("silent_as_posix")
+				}
+			}
+			if !okDoc && !okPx && !reported {
+				reported = true
+				r.mismatch("split-parts", map[string]any{"input": in, "inp": c.Inp, "got": got, "want_doc": wantDoc, "want_posix": wantPx,
+					"lenient": c.Lenient, "dashc": c.Dashc})
+			}
+		})
 	})
 }
 
@@ -77,19 +88,26 @@ func TestVerifC17PkgRoundTrip(t *testing.T) {
 		if err := json.Unmarshal(line, &c); err != nil {
 			t.Fatal(err)
 		}
-		want := vStrs(c.Args)
-		in := vStr(c.Q)
-		got := SplitPkgConfigFlags(in)
-		if len(want) > 0 {
+		if len(c.Args) > 0 {
 			r.count("nontrivial")
 		}
-		if vEq(got, want) {
-			return
-		}
-		if !c.Px.Out && vEq(got, vStrs(c.Px.Parts)) {
-			r.count("roundtrip_only_posix_reading") // a backslash before a non-blank: documentation silent
-			return
-		}
-		r.mismatch("roundtrip", map[string]any{"input": in, "args": want, "got": got, "argtoks": c.Args})
+		reported := false
+		vInstances(c.Q, vMultiLetters, func() {
+			want := vStrs(c.Args)
+			in := vStr(c.Q)
+			got := SplitPkgConfigFlags(in)
+			r.count("real_calls")
+			if vEq(got, want) {
+				return
+			}
+			if !c.Px.Out && vEq(got, vStrs(c.Px.Parts)) {
+				r.count("roundtrip_only_posix_reading") // a backslash before a non-blank: documentation silent
+				return
+			}
+			if !reported {
+				reported = true
+				r.mismatch("roundtrip", map[string]any{"input": in, "args": want, "got": got, "argtoks": c.Args})
+			}
+		})
 	})
 }
